@@ -285,6 +285,39 @@ fn mtud_reset() {
     core::mem::forget(m);
 }
 
+// @harness mtud_non_probe_acked_keeps_larger_bursts props=C13 tier=quick kind=proof fn="BlackHoleDetector::on_non_probe_acked" desc="an acknowledged non-probe packet of size len clears exactly the suspicious loss bursts it disproves (those whose smallest lost packet was not larger than len); bursts of larger packets stay on record, so that a path that drops only large packets is still recognised as a black hole while small packets keep getting through"
+#[cfg_attr(kani, kani::proof)]
+#[cfg_attr(kani, kani::unwind(8))]
+#[cfg_attr(verif_replay, test)]
+fn mtud_non_probe_acked_keeps_larger_bursts() {
+    let min_mtu: u16 = vk::any();
+    vk::assume(min_mtu >= 1200);
+    let mut d = any_detector(min_mtu);
+    let len: u16 = vk::any();
+    let acked0 = d.acked_mtu;
+    let n0 = d.suspicious_loss_bursts.len();
+    let mut larger = 0;
+    let mut i = 0;
+    while i < n0 {
+        if d.suspicious_loss_bursts[i].smallest_packet_size > len {
+            larger += 1;
+        }
+        i += 1;
+    }
+    d.on_non_probe_acked(vk::any::<u32>() as u64, len);
+    if len <= acked0 {
+        assert!(d.suspicious_loss_bursts.len() == n0, "nothing new was learned, the record must stay");
+    } else {
+        assert!(d.suspicious_loss_bursts.len() == larger, "loss bursts of packets larger than the acknowledged one must stay on record");
+        let mut j = 0;
+        while j < d.suspicious_loss_bursts.len() {
+            assert!(d.suspicious_loss_bursts[j].smallest_packet_size > len);
+            j += 1;
+        }
+    }
+    core::mem::forget(d);
+}
+
 // ---- MTU discovery disabled (state == None): the peer's limit must still bind the estimate ----
 
 // @harness mtud_disabled_step props=C13 tier=quick kind=proof fn="MtuDiscovery::{disabled,on_peer_max_udp_payload_size_received,reset,black_hole_detected,on_acked,poll_transmit}" desc="MTU discovery disabled, inductive step: from any state of the estimator in which the peer's max_udp_payload_size p has been received and the estimate is <= p, none of reset (Connection::path_changed), black-hole fallback, a further limit, an acknowledgement or poll_transmit takes the estimate above p; no probe is ever sent"
